@@ -98,6 +98,14 @@ func genTroublePlan(r *rand.Rand) *ProxyPlan {
 			rs.Chunk = 10000
 		}
 		rs.EvictOnCond = r.IntN(4) == 0
+		if r.IntN(3) == 0 {
+			// the representation changes (and grows) while it is being served: a Range request that
+			// the origin answers in full stores the new version under the readers of the old one
+			rs.SizeStep = []int{1, 10, 500}[r.IntN(3)]
+			for t := int64(200); t < 3000; t += int64(300 + r.IntN(1500)) {
+				rs.BumpAtMs = append(rs.BumpAtMs, t)
+			}
+		}
 		if rs.Size > maxBody {
 			maxBody = rs.Size
 		}
